@@ -8,6 +8,36 @@
 use crate::util::{cfg_from_mask, guarded, DEFAULT_CFG};
 use wv_gen::log::Rec;
 
+/// `with_transform`: preserve_code_transform on and a harness section that writes the CodeTransform it is
+/// handed into its own payload, so that the emitted bytes depend on the offset map as well.
+fn once_cfg(input: &[u8], with_transform: bool) -> (String, Option<Vec<u8>>) {
+    if !with_transform {
+        return once(input);
+    }
+    let ids = std::sync::Arc::new(std::sync::Mutex::new(crate::probe::InputIds::default()));
+    let i2 = ids.clone();
+    let mut cfg = cfg_from_mask(DEFAULT_CFG | 64);
+    cfg.on_parse(move |m, idx| {
+        let mut log = crate::probe::OnParseLog::default();
+        crate::probe::observe_on_parse(m, idx, &mut log, false);
+        *i2.lock().unwrap() = log.ids;
+        Ok(())
+    });
+    match guarded(|| {
+        cfg.parse(input).map(|mut m| {
+            let out = std::sync::Arc::new(std::sync::Mutex::new(crate::probe::ProbeOut::default()));
+            let mut p = crate::probe::Probe::capture(&m, &ids.lock().unwrap(), out);
+            p.embed_transform = true;
+            m.customs.add(p);
+            m.emit_wasm()
+        })
+    }) {
+        Ok(Ok(out)) => ("ok".into(), Some(out)),
+        Ok(Err(e)) => (format!("err:{}", format!("{:#}", e).lines().next().unwrap_or("").chars().take(160).collect::<String>()), None),
+        Err(p) => (format!("panic:{}", p), None),
+    }
+}
+
 fn once(input: &[u8]) -> (String, Option<Vec<u8>>) {
     let cfg = cfg_from_mask(DEFAULT_CFG);
     match guarded(|| cfg.parse(input).map(|mut m| m.emit_wasm())) {
@@ -24,6 +54,11 @@ pub fn run(input: &[u8], _scn: &str, rec: &mut Rec) {
     rec.push_s("verdict", &v);
     if let Some(o) = out {
         rec.push_b("out", &o);
+    }
+    let (v2, out2) = once_cfg(input, true);
+    rec.push_s("verdict_ct", &v2);
+    if let Some(o) = out2 {
+        rec.push_b("out_ct", &o);
     }
 }
 
@@ -106,6 +141,39 @@ pub fn run(input: &[u8], scn: &str, rec: &mut Rec) {
                 Some((v0, out0)) => {
                     if *v0 != v || *out0 != out {
                         // differs from the first parallel run: log it in full
+                        rec.push_s(&format!("verdict.{}", label), &v);
+                        if let Some(o) = &out {
+                            rec.push_b(&format!("out.{}", label), o);
+                        }
+                    }
+                }
+            }
+        }
+    }
+    // second set: code-transform preservation on, the offset map embedded in the output
+    let mut first_ct: Option<(String, Option<Vec<u8>>)> = None;
+    let ct_threads: &[usize] = if lite { &[2] } else { &[2, 4, 8, 16] };
+    for &threads in ct_threads {
+        let pool = match rayon::ThreadPoolBuilder::new().num_threads(threads).build() {
+            Ok(p) => p,
+            Err(_) => continue,
+        };
+        for m in 0u64..(if lite { 1 } else { 3 }) {
+            mode.store(m, Ordering::Relaxed);
+            log.lock().unwrap().clear();
+            let (v, out) = pool.install(|| once_cfg(input, true));
+            runs += 1;
+            let label = format!("ct.t{}m{}", threads, m);
+            match &first_ct {
+                None => {
+                    rec.push_s("verdict_ct", &v);
+                    if let Some(o) = &out {
+                        rec.push_b("out_ct", o);
+                    }
+                    first_ct = Some((v, out));
+                }
+                Some((v0, out0)) => {
+                    if *v0 != v || *out0 != out {
                         rec.push_s(&format!("verdict.{}", label), &v);
                         if let Some(o) = &out {
                             rec.push_b(&format!("out.{}", label), o);
